@@ -6,7 +6,7 @@
    trace validation (deadlock detector) and on the model by "no enabled BEGIN at quiescence". *)
 From Coq Require Import ZArith List Bool Arith.
 Import ListNotations.
-From MV Require Import Time.Spec Sched.Timing Sched.Inv Sched.Init Sched.Wle Sched.Main Sched.Guards Sched.Final.
+From MV Require Import Time.Spec Sched.Timing Sched.Inv Sched.Init Sched.Wle Sched.Main Sched.Guards Sched.Final Static.Groups Static.Connect Static.Build Sched.Plane Sched.Link Sched.Certify.
 Open Scope Z_scope.
 
 Theorem C05_partial_never_progresses_backwards : forall st, static_ok st -> forall s e i,
@@ -22,3 +22,18 @@ Print Assumptions C05_partial_never_steps_in_the_past.
 Theorem C05_partial_invariants_hold_on_every_run : forall st, static_ok st -> forall s, reached st s -> Good st s.
 Proof. exact reached_good. Qed.
 Print Assumptions C05_partial_invariants_hold_on_every_run.
+
+(* the premise static_ok is decidable per scenario: it holds for the static record that Sched.Link.prepare builds from
+   the scenario whenever the extracted checker accepts the tables (the checks run it on every generated scenario) *)
+Theorem C05_premise_certified : forall fuel sc st dt t anc,
+  prepare fuel sc = Prepared st dt t anc -> check_static sc t anc = true -> static_ok st.
+Proof. exact prepared_static_ok. Qed.
+Print Assumptions C05_premise_certified.
+
+(* non-vacuity: A (time-based) -> B (event-based, trigger input), one group level; prepare succeeds and the tables are certified *)
+Example C05_nonvacuous :
+  let f := mkF true true false true true 0 false false true in
+  let sc := mkScen [None] (fun _ => 0%nat) (fun i => if Nat.eqb i 0 then TimeBased else EventBased) 2
+                   [mkConn 0 1 2 1 f false 0] [] 5 100 true true in
+  match prepare 100 sc with Prepared st dt t anc => check_static sc t anc | _ => false end = true.
+Proof. vm_compute. reflexivity. Qed.
